@@ -196,7 +196,11 @@ class MatcherMixin:
     def finish_optionbag(self):
         for key in list(self.optionbag.keys()):
             for val, pos in self.optionbag.get_key(key):
-                ZConfig.matcher.BaseMatcher.addValue(self, key, val, pos)
+                # option positions are (url, lineno, colno); the matcher
+                # and ValueInfo expect (lineno, colno, url)
+                url, lineno, colno = pos
+                ZConfig.matcher.BaseMatcher.addValue(
+                    self, key, val, (lineno, colno, url))
         self.optionbag.finish()
 
 
